@@ -227,14 +227,20 @@ PROPS = {
     ),
     'C14': dict(
         title='Calling an interface follows the PEP 246 adaptation order',
-        contracts=['C14_adapt'], falsifier='C14', modes=['py', 'c'], level='proof',
+        contracts=['C14_adapt'], cfun=['C14_c'], falsifier='C14', modes=['py', 'c'], level='proof',
         level_text='InterfaceBase.__call__ and InterfaceBase.__adapt__ (Python reference) are verified from their real bodies against '
                    'the decision list of the statement, with every external call (__conform__, hooks, custom __adapt__) modelled by '
                    'result/raise oracles and a ghost call log: the result, the exception and the exact sequence of executed steps '
-                   'are those of the statement for every hook list length and every oracle. The C twins IB__call__/IB__adapt__ are '
-                   'compared with the same decision list exhaustively over the product of the statement (hook lists <= 2/3), bounded.',
+                   'are those of the statement for every hook list length and every oracle. The C twin IB__adapt__ is verified from the '
+                   'clang AST of the real file (functional C front end, same oracles and ghost call log): an object that provides the '
+                   'interface is returned without calling anything, otherwise exactly the first k hooks are called in list order with '
+                   '(interface, object), none of the first k-1 decides, the k-th decides by result or exception or all were called and '
+                   'None is returned, NULL iff an exception is set; a bridging lemma (proved) shows that this loop summary is the '
+                   'decision list of the Python contract. IB__call__ (argument parsing, __conform__, custom __adapt__ flag) is compared '
+                   'with the decision list exhaustively over the product of the statement (hook lists <= 2/3, attribute locations, '
+                   'inherited custom __adapt__, adaptation sequences), bounded.',
         level_note='assumes hooks do not edit the hook list (C11 covers that), providedBy is a pure query, the _call_conform '
-                   'TypeError heuristic is outside the domain; C twins bounded.',
+                   'TypeError heuristic is outside the domain; CPython API models trusted (A2); IB__call__ bounded.',
     ),
     'C15': dict(
         title='Attribute, tagged-value and invariant resolution all follow the resolution order',
@@ -325,13 +331,16 @@ PROPS = {
     ),
     'C10': dict(
         title='The C accelerator is observationally equivalent to the Python reference',
-        contracts=[], falsifier='C10', modes=['py', 'c'], level='other', differential=True,
+        contracts=[], cfun=['C12_c', 'C14_c'], falsifier='C10', modes=['py', 'c'], level='other', differential=True,
         cfunctions=['_subcache', '_getcache', '_lookup', '_lookup1', '_adapter_hook', '_lookupAll', '_subscriptions', 'IB__adapt__', 'SB_extends', 'SB_providedBy', 'SB_implementedBy'],
         creturns={'_subcache': 'borrowed', '_getcache': 'borrowed'},
         level_text='Bounded differential check: six generated API programs (about 18k steps: registry chains 3-4 deep of both flavours with a mutation at every level and warm leaf caches, specification queries, comparison and hashing, '
                    'declaration queries, adaptation calls, registry lookups incl. cached answers) over a pool of 33 odd argument values '
                    'are executed under both implementations and the traces (value shapes and exception types) compared; in addition '
                    'the bounded checks of C01-C09, C12-C14, C19 run under both implementations against one executable contract each. '
+                   'Twin pairs verified against ONE functional contract (C side from the clang AST by the functional C front end, Python '
+                   'side from the ast): IB_richcompare / _compare+__lt__..__ge__+__eq__+__ne__ and IB__hash__ / __hash__ (key order, C12), '
+                   'IB__adapt__ / __adapt__ (hook decision list, C14); more pairs are listed in the evidence as they are added. '
                    'The ownership obligations of the C functions (see C11) are discharged as part of this check.',
         level_note='equivalence itself is bounded (fixed programs and argument pool); twin pairs are not yet verified against one '
                    'functional contract by the C front end.',
